@@ -9,6 +9,8 @@ SS = "setsketcher::SetSketcher::<I, T, H>::"
 RULES = {
     "MERGE-a": "in SetSketcher::merge the first effect on self is dominated by rejecting comparisons (early `return Err`) that "
                "together read, on both self and other, every field that SetSketcher::new copies from a SetSketchParams getter",
+    "MERGE-c": "merge leaves before the register join only through the parameter-mismatch rejections: every other return (an "
+               "'empty source' fast path, an early Ok) would skip the join for some pair of compatible sketches",
     "MERGE-b": "the only register effect of merge is k_vec[i] = max(k_vec[i], other.k_vec[i]) over the full range 0..k_vec.len(); "
                "merge writes nothing but k_vec and nb_overflow",
     "LOWER": "lower_k is written only with the constant 0 in new/default/reinit, and in sketch only with a min-fold over "
@@ -154,6 +156,37 @@ def merge_rules(ctx, facts):
                           "`%s` can execute before self.%s is compared with other.%s: a refused merge would leave the receiver changed" % (hirq.show(bad[0])[:60], f, f))
         else:
             ctx.ok("MERGE-a", fid, "self.%s vs other.%s rejected at %s before the first effect" % (f, f, hirq.loc(guards[0])), hirq.loc(guards[0]))
+    # MERGE-c
+    def _only_params(r):
+        for d in _disjuncts(r["c"]):
+            if any(_compares_field(d, f) for f in fields):
+                continue
+            ht = _helper_tests(facts, d)
+            if ht and all(any(_compares_field(n, f, o, neg) for f in fields) for (n, o, neg) in ht):
+                continue
+            return False
+        return True
+    kw_ = writes_to_self(fn, "k_vec")
+    join = kw_[0][0] if kw_ else None
+    # the top-level statement of the body that contains the join
+    top = None
+    if join is not None:
+        for st in fn["hir"]["stmts"] + ([fn["hir"]["expr"]] if "expr" in fn["hir"] else []):
+            if t.contains(st, join):
+                top = st
+    for x in user_nodes(fn):
+        if x["k"] == "Ret" or (x["k"] == "Match" and x.get("src") == "TryDesugar"):
+            if top is not None and (t.contains(top, x) or hir_dominates(t, top, x)):
+                # inside or after the join: MERGE-b decides the loop's own exits and conditions
+                continue
+            ifs = [a_ for a_ in t.ancestors(x) if a_["k"] in ("If", "Match", "Loop", "Closure")]
+            if len(ifs) == 1 and any(ifs[0] is r for r in rej) and _only_params(ifs[0]):
+                ctx.ok("MERGE-c", fid, "return before the join only on a parameter mismatch", hirq.loc(x))
+            else:
+                c_ = hirq.show(ifs[0]["c"])[:90] if ifs and ifs[0]["k"] == "If" else hirq.show(x)[:90]
+                ctx.violation("MERGE-c", fid, "early exit before the join", hirq.loc(x),
+                              "merge can return here before the position-wise max has been taken, under a condition that is not a comparison of "
+                              "sketch parameters: compatible sketches would be left unmerged (`%s`)" % c_)
     # MERGE-b
     written = sorted({f for (w, f, i) in writes_to_self(fn)} | {k for (n, k) in mutating_self_calls(fn) if k})
     extra = [f for f in written if f not in ("k_vec", "nb_overflow")]
